@@ -5,8 +5,8 @@ The byte layout of every scenario (N and the item boundaries) is asked from the 
 import os
 import random
 
-SCENARIOS = ["hin", "hout", "seed", "leech", "dis", "pex", "multi", "mblk", "hs3", "full", "fullx", "hfail", "thrd", "thru"]
-SEEDING = {"hin", "seed", "pex", "hs3", "full", "fullx", "hfail", "thru"}
+SCENARIOS = ["hin", "hout", "seed", "leech", "dis", "pex", "multi", "mblk", "hs3", "full", "fullx", "hfail", "thrd", "thru", "snub", "snub2", "sockfull"]
+SEEDING = {"hin", "seed", "pex", "hs3", "full", "fullx", "hfail", "thru", "snub", "snub2", "sockfull"}
 PEER_FAULTS = "XRH"          # remote close / reset / half close of one peer
 GLOBAL_FAULTS = "TSCDM"      # timeout, local stop / close / remove, every peer at once
 CORPUS = os.path.join(os.path.dirname(os.path.dirname(os.path.abspath(__file__))), "corpus", "C16")
@@ -95,6 +95,15 @@ def gen(seed, tier, layouts):
             for f, t in faults:
                 cases.append("sc=%s k=%d f=%s tgt=%d" % (sc, k, f, t))
                 stats["faults"][f] = stats["faults"].get(f, 0) + 1
+        # fault point "the last block of a piece has just been read, the main thread has not drained its callbacks":
+        # local stop / close / remove (and a remote close) exactly at the end of every PIECE message
+        ends = [off for (off, kind, _) in lay["bounds"][1:] + [(N, "", 0)]]
+        kinds = [kind for (_, kind, _) in lay["bounds"]]
+        for idx, kind in enumerate(kinds):
+            if kind in ("pc", "pr", "bad"):
+                for f in "SCDX":
+                    cases.append("sc=%s k=%d f=%s tgt=0 nw=1" % (sc, ends[idx], f))
+                    stats["faults"]["nw"] = stats["faults"].get("nw", 0) + 1
         stats["per_scenario"][sc] = {"N": N, "offsets": len(ks), "cases": len(cases) - n0}
         # library shutdown with the session live: a few offsets per scenario, one process each
         pick = sorted(bnd)
